@@ -394,12 +394,10 @@ class Engine(StmtMixin):
             fr[g] = ops.lift(self.eval1(ast.parse(init, mode="eval").body, st, sctx))
         if c.gen == "producer" and "OUT" not in fr:
             fr["OUT"] = z3.Empty(smt.BytesSeq)
-        # class invariants of shapes + requires
-        if is_method and "classmethod" not in fi.decorators:
-            sh = self.R.shapes.get(c.self_shape or fi.cls.name)
-            if sh is not None:
-                for cl in sh.invariant:
-                    st.assume(self.eval_clause(cl, st, sctx))
+        # class invariants of every symbolic object created for the entry state (self, parameters, nested fields)
+        for obj, sh in self.created_shapes:
+            self.assume_shape_invariant(st, obj, sh)
+        self.created_shapes = []
         for cl in c.requires:
             st.assume(self.eval_clause(cl, st, sctx))
         if not self.feasible(st):
@@ -413,6 +411,20 @@ class Engine(StmtMixin):
             self.paths_explored += 1
             self.check_exit(s2, ctx, c, oc, fi)
         return self.obligations[n0:]
+
+    def shape_ctx(self, st: State, obj: Ref, sh) -> Ctx:
+        cv = META[obj.oid].cls
+        ci = cv.ci if isinstance(cv, ClassVal) else None
+        fi = FuncInfo(ci.module if ci else next(iter(self.P.modules.values())), (ci.name if ci else sh.name) + ".<invariant>",
+                      ast.parse("lambda: 0").body[0].value, ci)
+        frame = self.new_frame(st, None, "invariant:" + sh.name)
+        st.heap[frame.oid]["self"] = obj
+        return Ctx(fi, frame, None, False, True, None, {}, {}, (), {}, None, sh.name)
+
+    def assume_shape_invariant(self, st: State, obj: Ref, sh) -> None:
+        ictx = self.shape_ctx(st, obj, sh)
+        for cl in sh.invariant:
+            st.assume(self.eval_clause(cl, st, ictx))
 
     def oblige_sat(self, st: State, line: int, name: str) -> None:
         base = f"{self.cur_fn_key}:vacuity:{name}"
